@@ -1,4 +1,7 @@
 import Lox.LR.CheckSound
+import Lox.LR.Refine
+import Lox.LR.TermSound
+import Lox.LR.TermCounter
 import Lox.LR.Example
 /-! # C01 — the generated parser accepts exactly L(G)
 
@@ -95,7 +98,156 @@ theorem tables_reject (h : check G nTerms nRules T cert = .ok ()) {w : List Nat}
     (hr : run G (autoOf T cert) fuel (init w) = .fail) : ¬ ∃ t, Der G [.n (startSym G)] w [t] :=
   reject (check_sound h).1 (check_sound h).2.2 hr
 
+/-! ### The model of the GENERATED `parse` (`Lox.LR.parse`, Model.lean) on validated tables
+
+`Lox.LR.parse T inp withBounds fuel` is the transcription of the generated Go `parse` (with
+`_readToken`, `_recover`, `_Bounds`; out-of-range reads and failed type assertions are explicit
+`panic` outcomes) that the correspondence harness ties to the compiled parsers (`lr.parse`).
+`inp` is the array of token types the lexer returns (then EOF forever). -/
+
+/-- **Every sentence is accepted by the generated parser** (also for grammars with `@error`
+productions: on a sentence `_recover` is never entered). The `_act` calls logged are the
+post-order of the derivation tree and the value left on top of the stack is the tree. -/
+theorem parse_complete (h : check G nTerms nRules T cert = .ok ()) {w : List Nat}
+    (hw : ∀ x ∈ w, x ≠ 1) {t : Tree} (hd : Der G [.n (startSym G)] w [t]) (wb : Bool) :
+    ∃ n, ∀ fuel, n ≤ fuel →
+      (parse T w.toArray wb fuel).1 = .accept ∧
+      (actsOf (parse T w.toArray wb fuel).2.log).reverse = t.post ∧
+      (parse T w.toArray wb fuel).2.stack.head?.map (fun e => e.sym.toTree) = some t := by
+  obtain ⟨n, hn⟩ := tables_complete h hd
+  exact ⟨n, fun fuel hf =>
+    parse_accept (checkB_spec (check_ok_iff.mp h)) (inp := w.toArray) (by simpa using hw) wb
+      (by simpa using hn) hf⟩
+
+/-- **The generated parser accepts only sentences** (tables without ERROR actions, i.e. the grammar
+has no `@error`; input without EOF/ERROR token types), whatever the fuel; the logged `_act` calls
+are the post-order of the unique derivation tree. -/
+theorem parse_sound (h : check G nTerms nRules T cert = .ok ())
+    (hne : NoErrorActions T cert.size) {w : List Nat} (hw0 : eof ∉ w) (hw : ∀ x ∈ w, x ≠ 1)
+    (wb : Bool) (fuel : Nat) (hacc : (parse T w.toArray wb fuel).1 = .accept) :
+    ∃ t, Der G [.n (startSym G)] w [t] ∧
+      (actsOf (parse T w.toArray wb fuel).2.log).reverse = t.post ∧
+      (parse T w.toArray wb fuel).2.stack.head?.map (fun e => e.sym.toTree) = some t := by
+  have hc := checkB_spec (check_ok_iff.mp h)
+  have ho := parse_outcome hc hne (inp := w.toArray) (by simpa using hw) wb fuel
+  cases hr : run G (autoOf T cert) fuel (init w.toArray.toList) with
+  | acc t lg =>
+    rw [hr] at ho
+    have hr' : run G (autoOf T cert) fuel (init w) = .acc t lg := by simpa using hr
+    have hd := tables_sound h hw0 hr'
+    obtain ⟨n, hn⟩ := tables_complete h hd
+    have := run_det hr' hn (by simp) (by simp)
+    simp at this
+    exact ⟨t, hd, by rw [ho.2.1, this], ho.2.2⟩
+  | fail =>
+    rw [hr] at ho
+    rcases ho with ho | ho <;> rw [ho] at hacc <;> simp at hacc
+  | timeout =>
+    rw [hr] at ho
+    simp only at ho
+    rw [ho] at hacc; simp at hacc
+
+/-- **The generated parser never panics** on validated tables without ERROR actions (no index out
+of range in `_Find`/`_rules`/`_termCounts`, no peek beyond the stack, no failed type assertion). -/
+theorem parse_no_panic (h : check G nTerms nRules T cert = .ok ())
+    (hne : NoErrorActions T cert.size) {w : List Nat} (hw : ∀ x ∈ w, x ≠ 1)
+    (wb : Bool) (fuel : Nat) (m : String) : (parse T w.toArray wb fuel).1 ≠ .panic m := by
+  have hc := checkB_spec (check_ok_iff.mp h)
+  have ho := parse_outcome hc hne (inp := w.toArray) (by simpa using hw) wb fuel
+  intro hp
+  cases hr : run G (autoOf T cert) fuel (init w.toArray.toList) with
+  | acc t lg => rw [hr] at ho; rw [ho.1] at hp; simp at hp
+  | fail => rw [hr] at ho; rcases ho with ho | ho <;> rw [ho] at hp <;> simp at hp
+  | timeout => rw [hr] at ho; simp only at ho; rw [ho] at hp; simp at hp
+
+/-- **A rejected input is not a sentence** (same premises). -/
+theorem parse_reject (h : check G nTerms nRules T cert = .ok ())
+    (hne : NoErrorActions T cert.size) {w : List Nat} (hw : ∀ x ∈ w, x ≠ 1)
+    (wb : Bool) (fuel : Nat) (hrej : (parse T w.toArray wb fuel).1 = .reject) :
+    ¬ ∃ t, Der G [.n (startSym G)] w [t] := by
+  have hc := checkB_spec (check_ok_iff.mp h)
+  have ho := parse_outcome hc hne (inp := w.toArray) (by simpa using hw) wb fuel
+  cases hr : run G (autoOf T cert) fuel (init w.toArray.toList) with
+  | acc t lg => rw [hr] at ho; rw [ho.1] at hrej; simp at hrej
+  | fail => exact tables_reject h (by simpa using hr)
+  | timeout => rw [hr] at ho; simp only at ho; rw [ho] at hrej; simp at hrej
+
+/-! ### Termination
+
+`Valid ∧ Safe` do not bound the number of consecutive reductions on a NON-sentence
+(`termination_needs_more`: tables that pass `check` and loop forever). The validator therefore runs
+a second check, `termB` (all local reduce-only runs leave their local stack within a fuel), and
+with it the machine finishes on every input, i.e. it DECIDES the language. -/
+
+/-- Abstract termination (`Abs.LocalTerm` is what `termB` establishes). -/
+theorem terminates {F : Nat} (hs : Safe G A) (hl : LocalTerm G A F) (w : List Nat) :
+    ∃ fuel, run G A fuel (init w) ≠ .timeout :=
+  Abs.terminates hs hl w
+
+/-- `check` alone cannot give termination: these tables pass `check`, and the run on `b` (not a
+sentence) is out of fuel for every fuel. -/
+theorem termination_needs_more :
+    check TermCounter.G 4 3 TermCounter.T TermCounter.cert = .ok () ∧
+      ∀ fuel, run TermCounter.G (autoOf TermCounter.T TermCounter.cert) fuel (init [3]) =
+        .timeout :=
+  TermCounter.check_does_not_imply_termination
+
+/-- **The validated machine decides L(G)**: with `check` and `termB`, for every token sequence some
+fuel suffices, and the verdict is right: accept with the derivation tree, or fail on a
+non-sentence. -/
+theorem tables_decide (h : check G nTerms nRules T cert = .ok ()) (ht : termB G T cert = true)
+    {w : List Nat} (hw : eof ∉ w) :
+    ∃ fuel, (∃ t, run G (autoOf T cert) fuel (init w) = .acc t t.post ∧
+              Der G [.n (startSym G)] w [t]) ∨
+            (run G (autoOf T cert) fuel (init w) = .fail ∧
+              ¬ ∃ t, Der G [.n (startSym G)] w [t]) := by
+  obtain ⟨n, hn⟩ := tables_terminate h ht w
+  refine ⟨n, ?_⟩
+  cases hr : run G (autoOf T cert) n (init w) with
+  | acc t lg =>
+    have hd := tables_sound h hw hr
+    obtain ⟨m, hm⟩ := tables_complete h hd
+    have := run_det hr hm (by simp) (by simp)
+    exact Or.inl ⟨t, by rw [this], hd⟩
+  | fail => exact Or.inr ⟨rfl, tables_reject h hr⟩
+  | timeout => exact absurd hr hn
+
+/-- **The generated parser decides L(G)** (model `Lox.LR.parse`; tables validated by `check` and
+`termB`, no ERROR actions, input without EOF/ERROR token types): from some fuel on the outcome is
+`accept` exactly for sentences and `reject` otherwise – never `panic`, never `timeout`. -/
+theorem parse_decides (h : check G nTerms nRules T cert = .ok ()) (ht : termB G T cert = true)
+    (hne : NoErrorActions T cert.size) {w : List Nat} (hw0 : eof ∉ w) (hw : ∀ x ∈ w, x ≠ 1)
+    (wb : Bool) :
+    ∃ N, ∀ fuel, N ≤ fuel →
+      ((parse T w.toArray wb fuel).1 = .accept ∧ ∃ t, Der G [.n (startSym G)] w [t]) ∨
+      ((parse T w.toArray wb fuel).1 = .reject ∧ ¬ ∃ t, Der G [.n (startSym G)] w [t]) := by
+  have hc := checkB_spec (check_ok_iff.mp h)
+  obtain ⟨n, hn⟩ := tables_terminate h ht w
+  refine ⟨n + w.length + 2, fun fuel hf => ?_⟩
+  cases hr : run G (autoOf T cert) n (init w) with
+  | acc t lg =>
+    have hd := tables_sound h hw0 hr
+    have := parse_accept hc (inp := w.toArray) (by simpa using hw) wb (n := n)
+      (by simpa using hr) (fuel := fuel) (by omega)
+    exact Or.inl ⟨this.1, t, hd⟩
+  | fail =>
+    have := parse_reject_of_fail hc hne (inp := w.toArray) (by simpa using hw) wb (n := n)
+      (by simpa using hr) (fuel := fuel) (by omega) (by simp; omega)
+    exact Or.inr ⟨this, tables_reject h hr⟩
+  | timeout => exact absurd hr hn
+
 /-! ### Non-vacuity: the hypotheses hold for tables emitted by the real generator -/
+
+example : termB Example.G Example.T Example.cert = true := by decide
+
+
+example : NoErrorActions Example.T Example.cert.size :=
+  noErrorB_spec (by decide)
+
+/-- The model of the generated parser on the example tables: accepts `a a b`, rejects `a a`. -/
+example : (parse Example.T #[2, 2, 3] false 20).1 = .accept := by decide
+example : (parse Example.T #[2, 2] false 20).1 = .reject := by decide
+
 
 example : check Example.G 4 2 Example.T Example.cert = .ok () := Example.check_ok
 
